@@ -44,6 +44,20 @@ func spaces(thorough bool) []chanmc.Space {
 			{By: 0, Amt: sat(25000, 1), Fate: "settle"},
 		}}})
 	}
+	if thorough {
+		// deeper: two cuts anywhere on the two-HTLC shapes, then a three-HTLC shape with one cut
+		for ti, typ := range types {
+			th := chanmc.Thresholds(typ, 6000, 200, 1300)
+			out = append(out, chanmc.Space{Dev: -1, P: chanmc.Params{Type: typ, OpenerB: ti%2 == 0, MaxCuts: 2, NoDLP: ti%2 == 1, Script: []chanmc.Intent{
+				{By: 0, Amt: sat(th[1]-1, 999), Fate: "malformed"}, {By: 1, Amt: sat(30000, 0), Fate: "settle"},
+			}}})
+		}
+		for ti, typ := range types {
+			out = append(out, chanmc.Space{Dev: -1, P: chanmc.Params{Type: typ, OpenerB: ti%2 == 1, MaxCuts: 1, Fees: []int64{6900}, Script: []chanmc.Intent{
+				{By: 0, Amt: sat(31000, 0), Fate: "settle"}, {By: 0, Amt: sat(32000, 0), Fate: "fail"}, {By: 1, Amt: sat(33000, 1), Fate: "settle"},
+			}}})
+		}
+	}
 	return out
 }
 
